@@ -57,13 +57,13 @@ def _pid(obj):
 
 
 def mkrec(cls, v, refs=(), pad=0):
-    """Hand-assemble a ZODB record: class pickle + state pickle."""
+    """Assemble a ZODB record exactly the way ZODB itself pickles one (one
+    pickler, shared memo, class first, then the state), so that a record
+    produced by conflict resolution for the same state has the same bytes."""
+    from ZODB._compat import PersistentPickler, _protocol
     f = io.BytesIO()
-    p = pickle.Pickler(f, 3)
-    p.persistent_id = _pid
+    p = PersistentPickler(_pid, f, _protocol)
     p.dump(cls if isinstance(cls, type) else globals()[cls])
-    p = pickle.Pickler(f, 3)
-    p.persistent_id = _pid
     p.dump({'v': v, 'refs': [Ref(o) for o in refs], 'pad': b'x' * pad})
     return f.getvalue()
 
@@ -93,13 +93,11 @@ def decode(data):
                 refs.append(pid)
             return None
 
-        u = pickle.Unpickler(f)
+        u = pickle.Unpickler(f)     # one unpickler: the memo is shared
         u.persistent_load = pl
         cls = u.load()
         if isinstance(cls, tuple):
             cls = cls[0]
-        u = pickle.Unpickler(f)
-        u.persistent_load = pl
         st = u.load()
         return (cls.__name__, st['v'], tuple(refs), len(st['pad']))
     except Exception:
